@@ -249,6 +249,51 @@ def _ob_dual(t, s):
     return run
 
 
+def _ob_fexact_mul(name):
+    """Mode F with the exact fp.mul / fp.div encodings, for the norms that multiply or divide: bit-exact equality with the documented
+    formula evaluated in IEEE arithmetic in the documented order, for all doubles in [0,1] (subnormals included).  The terms coincide
+    syntactically on a faithful implementation, so the query is instant; an algebraically equal form that loses small operands or
+    divides first differs.  The replay compares with a relative tolerance of 1e-12: a form that merely rounds differently is reported
+    as an unreproduced candidate, not as a violation.  (Range and commutativity in floats are NOT claimed here: a + b - a*b may exceed
+    1 by an ulp.)"""
+
+    def run(ob):
+        fl = install()
+        set_mode("F", fexact=True)
+        ob.query_timeout_ms = 120000 if ob.tier == "quick" else 900000
+        N = _norm(fl, name)
+        a, b = core.var("a"), core.var("b")
+        pre = [unit(a), unit(b)]
+        R = core.RNE
+        fa, fb = a.f, b.f
+        ONE, ZERO, TWO = core.fv(1.0), core.fv(0.0), core.fv(2.0)
+        add, mul = z3.fpAdd(R, fa, fb), z3.fpMul(R, fa, fb)
+        expected = {
+            "AlgebraicProduct": mul,
+            "AlgebraicSum": z3.fpSub(R, add, mul),
+            "EinsteinProduct": z3.fpDiv(R, mul, z3.fpSub(R, TWO, z3.fpSub(R, add, mul))),
+            "EinsteinSum": z3.fpDiv(R, add, z3.fpAdd(R, ONE, mul)),
+            "HamacherProduct": z3.If(z3.Not(z3.fpEQ(add, ZERO)), z3.fpDiv(R, mul, z3.fpSub(R, add, mul)), ZERO),
+            "HamacherSum": z3.If(z3.Not(z3.fpEQ(mul, ONE)), z3.fpDiv(R, z3.fpSub(R, add, z3.fpMul(R, z3.fpMul(R, TWO, fa), fb)), z3.fpSub(R, ONE, mul)), ONE),
+            "NormalizedSum": z3.fpDiv(R, add, z3.If(z3.Or(z3.fpIsNaN(ONE), z3.fpIsNaN(add)), core.fv(float("nan")), z3.fpMax(ONE, add))),      # np.maximum propagates NaN
+        }[name]
+        rpf = replay_fn(PROPERTY, f"{name}.Fx", lambda v: "\n".join([
+            f"a, b = {lit(v['a'])}, {lit(v['b'])}", f"N = fl.{name}()", f"spec = lambda a, b: {spec.PY[name]}",
+            "with np.errstate(all='ignore'): r = float(N.compute(a, b)); e = float(spec(a, b))",
+            "rel = lambda x, y: x == y or (x != x and y != y) or abs(x - y) <= 1e-12 * max(abs(x), abs(y))",
+            f"verdict(not rel(r, e), '{name} a=%r b=%r -> %r (documented %r)' % (a, b, r, e))"]), key=f"{name}/Fx")
+        for p in ob.paths(pre, lambda: N.compute(a, b)):
+            if p.exc is not None:
+                ob.unexpected(pre, p, f"{name}/F/formula-exact", {"a": a, "b": b}, rpf)
+                continue
+            if ob.reachable(pre, p) is None:
+                continue
+            r0 = tf(p.result).f
+            ob.prove(pre, p, z3.Or(z3.fpEQ(r0, expected), z3.And(z3.fpIsNaN(r0), z3.fpIsNaN(expected))), f"{name}/F/formula-exact", {"a": a, "b": b}, rpf)
+
+    return run
+
+
 def _ob_fexact(name, is_t):
     """Mode F: bit-exact equality with the documented formula evaluated in IEEE double arithmetic in the documented order,
     range and commutativity over all doubles in [0,1]."""
@@ -318,6 +363,8 @@ def _obligations(tier, seed):
         obs.append((f"{t}~{s}/R/dual", _ob_dual(t, s)))
     for name in F_EXACT:
         obs.append((f"{name}/F/exact", _ob_fexact(name, name in spec.TNORMS)))
+    for name in ("AlgebraicProduct", "AlgebraicSum", "EinsteinProduct", "EinsteinSum", "HamacherProduct", "HamacherSum", "NormalizedSum"):
+        obs.append((f"{name}/F/formula-exact", _ob_fexact_mul(name)))
     return obs
 
 
